@@ -1,5 +1,6 @@
-// rtoverlay generates a `go build -overlay` file that patches the runtime of the
-// toolchain in use (go1.26.8) in exactly two ways:
+// rtoverlay generates a `go build -overlay` file that patches the standard
+// library of the toolchain in use (go1.26.8) in exactly three ways (3: sync.Pool,
+// see poolFile):
 //
 //  1. runtime/select.go: the expression that randomises the poll order of a
 //     select statement consults a hook variable first. With the hook unset the
@@ -38,6 +39,78 @@ func verifSetSelectHook(f func(n uint32) uint32) { verifSelectHook = f }
 func verifGoid() uint64 { return getg().goid }
 `
 
+// poolFile replaces sync/pool.go: sync.Pool as shipped hands items out per P and
+// is emptied by the garbage collector, two sources of nondeterminism no schedule
+// controls. The simulator's Pool is a LIFO stack per pool (the most recently
+// returned item is handed out next, the order most likely to expose an item
+// that is still in use) that only VerifResetPools empties; the simulator calls
+// it before every run, so a run never sees items of an earlier one.
+const poolFile = `package sync
+
+type Pool struct {
+	noCopy noCopy
+
+	mu    Mutex
+	items []any
+	reg   bool
+
+	// New optionally specifies a function to generate
+	// a value when Get would otherwise return nil.
+	New func() any
+}
+
+var verifPools struct {
+	mu  Mutex
+	all []*Pool
+}
+
+// Put adds x to the pool.
+func (p *Pool) Put(x any) {
+	if x == nil {
+		return
+	}
+	p.mu.Lock()
+	if !p.reg {
+		p.reg = true
+		verifPools.mu.Lock()
+		verifPools.all = append(verifPools.all, p)
+		verifPools.mu.Unlock()
+	}
+	p.items = append(p.items, x)
+	p.mu.Unlock()
+}
+
+// Get hands out the most recently returned item, or New().
+func (p *Pool) Get() any {
+	p.mu.Lock()
+	if n := len(p.items); n > 0 {
+		x := p.items[n-1]
+		p.items[n-1] = nil
+		p.items = p.items[:n-1]
+		p.mu.Unlock()
+		return x
+	}
+	p.mu.Unlock()
+	if p.New != nil {
+		return p.New()
+	}
+	return nil
+}
+
+// VerifResetPools empties every pool of the process.
+func VerifResetPools() {
+	verifPools.mu.Lock()
+	all := append([]*Pool(nil), verifPools.all...)
+	verifPools.mu.Unlock()
+	for _, p := range all {
+		p.mu.Lock()
+		clear(p.items)
+		p.items = p.items[:0]
+		p.mu.Unlock()
+	}
+}
+`
+
 func main() {
 	if len(os.Args) != 3 {
 		fmt.Fprintln(os.Stderr, "usage: rtoverlay <GOROOT> <outdir>")
@@ -62,8 +135,10 @@ func main() {
 	}
 	must(os.WriteFile(filepath.Join(out, "select.go"), []byte(s), 0o644))
 	must(os.WriteFile(filepath.Join(out, "verif_hook.go"), []byte(hookFile), 0o644))
+	must(os.WriteFile(filepath.Join(out, "pool.go"), []byte(poolFile), 0o644))
 	ov := map[string]map[string]string{"Replace": {
 		src: filepath.Join(out, "select.go"),
+		filepath.Join(goroot, "src", "sync", "pool.go"): filepath.Join(out, "pool.go"),
 		filepath.Join(goroot, "src", "runtime", "verif_hook.go"): filepath.Join(out, "verif_hook.go"),
 	}}
 	j, _ := json.MarshalIndent(ov, "", " ")
